@@ -18,7 +18,7 @@ PASS_THROUGH = (
 
 class Gate:
     """one condition an accept site is control dependent on."""
-    __slots__ = ('kind', 'what', 'operands', 'fn', 'block', 'line', 'callee', 'args', 'edge', 'const_ops', 'truth', 'negated', 'dom', 'param')
+    __slots__ = ('kind', 'what', 'operands', 'fn', 'block', 'line', 'callee', 'args', 'edge', 'const_ops', 'truth', 'negated', 'dom', 'param', 'quant')
 
     def __init__(self, kind, what, operands, fn, block, line, callee=None, args=None, edge=None, const_ops=None):
         self.kind = kind          # 'cmp' | 'call' | 'deleg' | 'match' | 'opaque'
@@ -35,6 +35,7 @@ class Gate:
         self.truth = None     # which way the condition evaluated on the edge the accept site depends on
         self.negated = False  # an odd number of `!` between the classified operation and the switch
         self.param = None     # the switch inspects a Result / Option that is a parameter of this function (decided by the caller's argument)
+        self.quant = None     # this test is the body of a quantified predicate (`any` / `all` / `find` / `position`): the quantifier's callee
 
     def all_atoms(self):
         out = set()
@@ -327,6 +328,7 @@ def _classify_value(eng, fd, pl, bi, line, depth, payload=False):
                                 oo.add(a)
                         ops2.append(oo)
                     ng = Gate(g2.kind if g2.kind != 'deleg' else 'call', g2.what, ops2, g2.fn, bi, line, g2.callee, None, None, g2.const_ops)
+                    ng.quant = callee
                     subs.append(ng)
                 g = Gate('multi', 'quantified:' + short, [whole.all_atoms()], body.path, bi, line)
                 g.args = subs
